@@ -716,13 +716,7 @@ class HealSparseMap(object):
         delta_pix = pixel_ranges[:, 1] - pixel_ranges[:, 0]
         delta_covpix = cov_pix_ranges[:, 1] - cov_pix_ranges[:, 0]
 
-        covpix_start_values = (self._cov_map[cov_pix_ranges.ravel()] +
-                               self._cov_map.nfine_per_cov*cov_pix_ranges.ravel()
-                               ).reshape(cov_pix_ranges.shape)
-
-        covpix_offset_values = self._cov_map[self._cov_map.cov_pixels_from_index(
-            covpix_start_values.ravel()
-        )].reshape(cov_pix_ranges.shape)
+        covpix_offset_values = self._cov_map[cov_pix_ranges.ravel()].reshape(cov_pix_ranges.shape)
 
         def _do_operation_on_sparse_map_range(operation, sparse_map, start, stop, value):
             # Note that start: stop will not have overlapping pixels, so we do
